@@ -156,7 +156,8 @@ def honesty(dim, max_k, hermitian):
                 vecs.append(w / scalar(T.linalg.vector_norm(w)))
             for k, qk in enumerate(vecs[:m]):
                 want = want + E[k, col] * qk
-            env.check_eq(out, nv * want, f"returned vector = |v| * sum_k exp(T)[k,0] q_k  ({why} at iteration {j})")
+            if out is not None:  # (no vector came back although an iteration met a criterion: reported by the clauses above)
+                env.check_eq(out, nv * want, f"returned vector = |v| * sum_k exp(T)[k,0] q_k  ({why} at iteration {j})")
         else:
             env.check(res.iteration_count == max_k and len(op_out) == max_k, "all allowed iterations were used before giving up")
 
